@@ -390,3 +390,143 @@ Print Assumptions e2e_budget_source_fault.
 Print Assumptions e2e_budget_no_fault.
 Print Assumptions ex_line2_error.
 Print Assumptions ex_budget_inside_statement_2.
+
+(* ================= bulk methods call by call, consumers behind adapters, flush ================= *)
+From Sophia.C15 Require Import Bulk BulkProofs.
+
+(* a store that journals its calls receives exactly what the recording consumer receives: the same
+   items, each once, in source order, none after the failure; same rest of the source, same outcome *)
+Check (insert_all_journal : forall pol src chain c0,
+  let '(rest, st, o) := try_for_each jst src chain (j_insert pol) (mkjst c0 [] O) in
+  let '(rest', tr, o') := try_for_each (list item) src chain (rec_sink (p_fail_ins pol)) [] in
+  journal st = map CInsert tr /\ rest = rest' /\ o = o').
+Check (remove_all_journal : forall pol src chain c0,
+  let '(rest, st, o) := try_for_each jst src chain (j_remove pol) (mkjst c0 [] O) in
+  let '(rest', tr, o') := try_for_each (list item) src chain (rec_sink (p_fail_rem pol)) [] in
+  journal st = map CRemove tr /\ rest = rest' /\ o = o').
+Check (insert_all_source_fault : forall pol chain steps last e post c0,
+  not_reached (p_fail_ins pol) (length (fm chain (items_of steps ++ last))) ->
+  let '(rest, st, o) := bulk_stream true pol [] (clean steps ++ (last, Some e) :: post) chain (mkjst c0 [] O) in
+  journal st = map CInsert (fm chain (items_of steps ++ last)) /\ rest = post /\ o = SourceError e).
+Check (insert_all_store_fault : forall pol chain steps pre x y rest_of_batch oe post j e c0,
+  p_fail_ins pol = Some (j, e) -> through chain x = Some y ->
+  length (fm chain (items_of steps ++ pre)) = j ->
+  let '(rest, st, o) := bulk_stream true pol [] (clean steps ++ (pre ++ x :: rest_of_batch, oe) :: post) chain (mkjst c0 [] O) in
+  journal st = map CInsert (fm chain (items_of steps ++ pre) ++ [y]) /\ rest = post /\ o = SinkError e).
+(* remove_matching / retain_matching: one removal per listed matching item (per occurrence), in store order *)
+Check (remove_matching_journal : forall pol m c0, p_bad pol = None ->
+  let '(st, k) := matching false pol [] m (mkjst c0 [] O) in
+  let '(_, tr, o) := try_for_each (list item) (of_results (map inl (filter m c0))) [] (rec_sink (p_fail_rem pol)) [] in
+  journal st = map CRemove tr /\ k = kind_of_outcome o).
+Check (remove_matching_all_calls : forall pol m c0, p_bad pol = None -> p_fail_rem pol = None ->
+  let '(st, k) := matching false pol [] m (mkjst c0 [] O) in
+  journal st = map CRemove (filter m c0) /\ k = KDone).
+Check (remove_matching_stops_at_the_failing_call : forall pol m c0 j e, p_bad pol = None -> p_fail_rem pol = Some (j, e) ->
+  (j < length (filter m c0))%nat ->
+  let '(st, k) := matching false pol [] m (mkjst c0 [] O) in
+  journal st = map CRemove (firstn (S j) (filter m c0)) /\ k = KSink e).
+Check (remove_matching_listing_error : forall pol retain m c0 k e, p_bad pol = Some (k, e) -> (k <= length c0)%nat ->
+  matching retain pol [] m (mkjst c0 [] O) = (mkjst c0 [] O, KSource e)).
+Check (retain_is_remove_of_the_complement : forall pol ws m st,
+  matching true pol ws m st = matching false pol ws (fun x => negb (m x)) st).
+Check (bag_remove_matching_leaves_no_match : forall pol m c0,
+  p_rm_all pol = false -> p_fail_rem pol = None -> p_bad pol = None ->
+  let '(st, k) := matching false pol [] m (mkjst c0 [] O) in
+  content st = filter (fun x => negb (m x)) c0 /\ k = KDone).
+(* consumers behind adapters *)
+Check (mut_ref_forwards : forall St ws (base : sink St),
+  w_insert St (WRef :: ws) base = w_insert St ws base /\ w_remove St (WRef :: ws) base = w_remove St ws base).
+Check (dataset_graph_writes_into_its_graph : forall St g (base : sink St) x st,
+  w_insert St [WGraphMut g] base x st = base (1000 * g + tpart x) st
+  /\ gname (1000 * g + tpart x) = g /\ tpart (1000 * g + tpart x) = tpart x).
+Check (graph_as_dataset_default : forall St ws (base : sink St) x st, is_named x = false ->
+  w_insert St (WAsDataset :: ws) base x st = w_insert St ws base (tpart x) st).
+Check (graph_as_dataset_refuses_named : forall St ws (base : sink St) x st, is_named x = true ->
+  w_insert St (WAsDataset :: ws) base x st = (st, Some E_ONLY_DEFAULT)).
+Check (named_graph_of_graph_as_dataset : forall St g ws (base : sink St) x st, g <> 0 ->
+  w_insert St (WGraphMut g :: WAsDataset :: ws) base x st = (st, Some E_ONLY_DEFAULT)).
+Check (graph_as_dataset_remove_named : forall St ws (base : sink St) x st, is_named x = true ->
+  w_remove St (WAsDataset :: ws) base x st = (st, None)).
+Check (graph_as_dataset_stops_at_named : forall St ws (base : sink St) pre x post st,
+  (forall y s, snd (w_insert St ws base y s) = None) ->
+  forallb (fun y => negb (is_named y)) pre = true -> is_named x = true ->
+  try_for_each St (of_results (map inl pre ++ inl x :: post)) [] (w_insert St (WAsDataset :: ws) base) st
+  = (of_results post, fold_left (fun s y => fst (w_insert St ws base (tpart y) s)) pre st, SinkError E_ONLY_DEFAULT)).
+Check (graph_as_dataset_journal : forall pol pre x post c0, p_fail_ins pol = None ->
+  forallb (fun y => negb (is_named y)) pre = true -> is_named x = true ->
+  let '(rest, st, o) := bulk_stream true pol [WAsDataset] (of_results (map inl pre ++ inl x :: post)) [] (mkjst c0 [] O) in
+  journal st = map CInsert (map tpart pre) /\ rest = of_results post /\ o = SinkError E_ONLY_DEFAULT).
+(* the error is that of the FIRST failure: a flush (even a failing one) never masks a source error *)
+Check (flush_never_masks_a_source_error : forall mode e ffail, mode <> FlushAlways ->
+  after_stream mode (SourceError e) ffail = (KSource e, O)).
+Check (write_error_comes_first : forall mode e ffail, after_stream mode (SinkError e) ffail = (KSink e, O)).
+Check (flush_error_is_a_sink_error : forall e, after_stream FlushAtEnd Done (Some e) = (KSink e, 1%nat)).
+Check (no_flush_no_flush_error : forall ffail, after_stream NoFlush Done ffail = (KDone, O)).
+Check (serialize_source_fault : forall mode chain wfault ffail steps last e post, mode <> FlushAlways ->
+  not_reached wfault (length (fm chain (items_of steps ++ last))) ->
+  serialize mode (clean steps ++ (last, Some e) :: post) chain wfault ffail
+  = (fm chain (items_of steps ++ last), KSource e, O)).
+Check (serialize_done : forall mode chain wfault ffail steps,
+  not_reached wfault (length (fm chain (items_of steps))) ->
+  serialize mode (clean steps) chain wfault ffail
+  = (fm chain (items_of steps), fst (after_stream mode Done ffail), snd (after_stream mode Done ffail))).
+Check (ser_outcome_first_failure : forall mode src_err wfail ffail, mode <> FlushAlways ->
+  fst (ser_outcome mode src_err wfail ffail) =
+  match wfail, src_err with
+  | Some e, _ => KSink e
+  | None, Some e => KSource e
+  | None, None => match mode, ffail with NoFlush, _ => KDone | _, Some e => KSink e | _, None => KDone end
+  end).
+(* the alternative design (flush also after a source failure, `?` on its result) blames the sink *)
+Check (flush_after_a_source_error_blames_the_sink :
+  exists src e e', serialize FlushAlways src [] None (Some e') = ([1; 2], KSink e', 1%nat)
+                   /\ serialize FlushAtEnd src [] None (Some e') = ([1; 2], KSource e, O)
+                   /\ e <> e').
+
+(* non-vacuity: a multiset with repeated triples, remove_matching / retain_matching call by call;
+   a store failing on its 2nd removal; a named quad offered to a graph seen as a dataset, before a
+   later source error; a source error in front of a failing flush *)
+Example ex_bag_remove_matching :
+  matching false (mkpol false false None None None) [] (fun _ => true) (mkjst [1; 2; 2; 3; 2] [] O)
+  = (mkjst [] [CRemove 1; CRemove 2; CRemove 2; CRemove 3; CRemove 2] 5, KDone).
+Proof. vm_compute. reflexivity. Qed.
+Example ex_retain_matching_fault :
+  matching true (mkpol true true None (Some (1%nat, 283)) None) [WRef] (matcher_of (MD (SEq 1) (OEq 2) GAny)) (mkjst [5; 4; 1; 0] [] O)
+  = (mkjst [4; 1; 0] [CRemove 5; CRemove 4] 1, KSink 283).
+Proof. vm_compute. reflexivity. Qed.
+Example ex_named_quad_before_source_error :
+  bulk_stream true (mkpol false false None None None) [WAsDataset] (of_results [inl 1; inl 2; inl 1003; inl 4; inr 7]) [] (mkjst [] [] O)
+  = (of_results [inl 4; inr 7], mkjst [1; 2] [CInsert 1; CInsert 2] 2, SinkError 9000).
+Proof. vm_compute. reflexivity. Qed.
+Example ex_source_error_before_failing_flush :
+  serialize FlushAtEnd (of_results [inl 1; inl 2; inr 42; inl 3]) [] None (Some 77) = ([1; 2], KSource 42, O)
+  /\ serialize NoFlush (of_results [inl 1; inl 2; inr 42; inl 3]) [] None (Some 77) = ([1; 2], KSource 42, O)
+  /\ serialize FlushAtEnd (of_results [inl 1; inl 2]) [] None (Some 77) = ([1; 2], KSink 77, 1%nat).
+Proof. vm_compute. repeat split; reflexivity. Qed.
+
+Print Assumptions insert_all_journal.
+Print Assumptions remove_all_journal.
+Print Assumptions insert_all_source_fault.
+Print Assumptions insert_all_store_fault.
+Print Assumptions remove_matching_journal.
+Print Assumptions remove_matching_all_calls.
+Print Assumptions remove_matching_stops_at_the_failing_call.
+Print Assumptions remove_matching_listing_error.
+Print Assumptions retain_is_remove_of_the_complement.
+Print Assumptions bag_remove_matching_leaves_no_match.
+Print Assumptions mut_ref_forwards.
+Print Assumptions dataset_graph_writes_into_its_graph.
+Print Assumptions graph_as_dataset_default.
+Print Assumptions graph_as_dataset_refuses_named.
+Print Assumptions named_graph_of_graph_as_dataset.
+Print Assumptions graph_as_dataset_remove_named.
+Print Assumptions graph_as_dataset_stops_at_named.
+Print Assumptions graph_as_dataset_journal.
+Print Assumptions flush_never_masks_a_source_error.
+Print Assumptions write_error_comes_first.
+Print Assumptions flush_error_is_a_sink_error.
+Print Assumptions no_flush_no_flush_error.
+Print Assumptions serialize_source_fault.
+Print Assumptions serialize_done.
+Print Assumptions ser_outcome_first_failure.
+Print Assumptions flush_after_a_source_error_blames_the_sink.
